@@ -184,6 +184,25 @@ def r2(ctx):
             ctx.bad("C12.R2", f, loops[0].body[0], "countValues no longer "
                     "recurses into fiber payloads and counts a leaf iff it is "
                     "not empty", text_="countValues body")
+    # Tensor.countValues: content is counted from the tree, not from the
+    # rank lists (bookkeeping that lags behind direct edits of the tree)
+    ft = ctx.method("Tensor", "countValues")
+    rets_t = pat.returns(ft)
+    uses_ranks = [n for n in ft.own_nodes() if isinstance(n, ast.Attribute)
+                  and n.attr in ("ranks", "fibers", "getFibers")]
+    deleg = len(rets_t) == 1 and \
+        pat.inline(ctx, ft, rets_t[0].value).replace(" ", "") == \
+        "%s.getRoot().countValues()" % ft.params[0]
+    if deleg and not uses_ranks:
+        ctx.ok("C12.R2", ft, rets_t[0], "Tensor.countValues counts from the root",
+               text_="Tensor.countValues")
+    else:
+        ctx.bad("C12.R2", ft, rets_t[0] if rets_t else ft.node,
+                "Tensor.countValues is no longer the root fiber's count%s: "
+                "equal tensors can report different counts (the rank lists "
+                "are not updated by direct edits of the tree)"
+                % (" (it reads the rank lists: `%s`)" % text(uses_ranks[0])
+                   if uses_ranks else ""), text_="Tensor.countValues")
     # isEmpty
     f = ctx.method("Fiber", "isEmpty")
     rets = pat.returns(f)
